@@ -184,7 +184,9 @@ def flatten_variant(sc):
     # only one level of rewriting at a time is needed: recursion handles depth
     for n, _ in walk(top):
         if n["kind"] == "job":
-            if n["forever"] or n["sd"] or n["d"] is None:
+            # handlers must take no time: a nested scheduler ends (and passes a failure on) only after its own
+            # cancellations are acknowledged and its shutdown phase is over — the documented design, not a defect
+            if n["forever"] or n["sd"] or n["ch"] or n["d"] is None:
                 return None
     kids = flat_children(top)
     if not ok[0]:
@@ -249,6 +251,29 @@ def targeted(pid, rng, n):
     out = []
     for i in range(n):
         r = rng.random()
+        if pid in ("C02", "C04", "C05", "C06", "C09", "C10") and i % 4 == 0:
+            # several jobs of one scheduler finishing in the very same instant (one `done` batch): raising and
+            # returning, critical and not, forever and not, next to a long job and a successor
+            nb = rng.randint(2, 6)
+            t0 = rng.choice([0, 1, 1, 2])
+            jobs = [J("b%d" % k, t0, exc=rng.random() < 0.6, crit=rng.random() < 0.4, forever=rng.random() < 0.15,
+                      k=rng.choice([0, 0, 0, 1])) for k in range(nb)]
+            jobs.append(J("long", t0 + rng.choice([1, 2, 4]), crit=rng.random() < 0.5, ch=rng.choice([0, 2])))
+            jobs.append(J("succ", 1, req=[rng.choice(jobs)["name"] for _ in range(rng.randint(1, 2))]))
+            jobs[-1]["req"] = sorted(set(jobs[-1]["req"]))
+            if all(j["forever"] for j in jobs):
+                jobs[0]["forever"] = False
+            hs = list(range(len(jobs)))
+            rng.shuffle(hs)
+            for jb, h in zip(jobs, hs):
+                jb["h"] = h
+            tree = S("grp", jobs, crit=rng.random() < 0.6, T=rng.choice([None, None, t0, t0 + 1]), w=rng.choice([None, None, 3]))
+            if rng.random() < 0.5:
+                tree = S("top", [tree, J("side", rng.choice([1, 3]))], crit=rng.random() < 0.5, pure=rng.random() < 0.3)
+            else:
+                tree["pure"] = rng.random() < 0.3
+            out.append(dict(tree=tree))
+            continue
         if pid in ("C05", "C09", "C08", "C04", "C11", "C13") and r < 0.5:
             # a parent that ends (timeout / critical sibling / last regular job) at every phase of a nested run
             inner_jobs = [J("x%d" % k, rng.choice([1, 2, 3, None]), ch=rng.choice([0, 2, 3]), sd=rng.choice([0, 2, 3]),
